@@ -307,6 +307,11 @@ public:
 		else if (op == "out") { Val &a = get(t[2]); if (a.isBit()) pinOut(a.b()).setName(t[1]); else pinOut(a.u()).setName(t[1]); b.outNames.push_back(t[1]); }
 		else if (op == "drop") { b.vars.erase(t[1]); }
 		else if (op == "dropall") { dropAll = true; }
+		else if (op == "xovr") {       // xovr NAME a b : NAME = a, with b as export override (simulation keeps a)
+			Val &a = get(t[2]); Val &c = get(t[3]);
+			if (a.isBit()) { Bit x = a.b(); x.exportOverride(c.b()); setB(t[1], x); }
+			else { UInt x = a.u(); x.exportOverride(asU(t[3])); setU(t[1], x); }
+		}
 		else if (op == "tap") { Val &a = get(t[1]); if (a.isBit()) tap(a.b()); else tap(a.u()); }
 		else if (op == "attr") { Val &a = get(t[1]); SignalAttributes at; at.maxFanout = 8; if (a.isBit()) attribute(a.b(), at); else attribute(a.u(), at); }
 		else if (op == "mem") {        // mem NAME depth width [noconf] [zero]
